@@ -64,6 +64,13 @@ def f05aMounts : List Mount := [mkMount 0 0 0 [0], mkMount 1 1 0 [0]]
 def f05aReps : List Replica := [⟨0, 0, 900⟩, ⟨1, 1, 901⟩]
 def f05aResult : Result := balanceBlock f05aEnv [0] (wSorter f05aEnv) f05aMounts f05aReps
 
+/-! Why device consistency is assumed: device 7 is reported in class 0 by server 0 and in class 1
+by server 1; class 0 desired 1. -/
+def ncEnv : Env := wEnv (fun c => if c = 0 then 1 else 0)
+def ncMounts : List Mount := [mkMount 0 0 7 [0], mkMount 1 1 7 [1], mkMount 2 2 8 [0]]
+def ncReps : List Replica := [⟨0, 0, 900⟩, ⟨1, 1, 900⟩, ⟨2, 2, 800⟩]
+def ncResult : Result := balanceBlock ncEnv [0, 1] (wSorter ncEnv) ncMounts ncReps
+
 def roEnv : Env := wEnv (fun c => if c = 1 then 1 else 0)
 def roReps : List Replica := [⟨0, 0, 900⟩, ⟨2, 1, 800⟩, ⟨3, 2, 700⟩]
 
